@@ -1,23 +1,42 @@
-"""Time every Kani harness individually (timeout per harness); writes kani/timings.json.  usage: ktime.py [prefix...]"""
+"""Time Kani harnesses individually, N at a time (timeout per harness); merges into kani/timings.json.
+usage: ktime.py [-jN] [prefix...]"""
 import json, os, subprocess, sys, time
+from concurrent.futures import ThreadPoolExecutor
 sys.path.insert(0, os.path.dirname(os.path.abspath(__file__)))
 import krun
-pref = sys.argv[1:]
-hs = [n for m, n in krun.harness_names() if not pref or any(n.startswith(p) for p in pref)]
+args = sys.argv[1:]
+jobs = 1
+for a in list(args):
+    if a.startswith('-j'):
+        jobs = int(a[2:]); args.remove(a)
+hs = [n for m, n in krun.harness_names() if not args or any(n.startswith(p) for p in args)]
 work = krun.prepare('/repo')
 env = dict(os.environ, CARGO_NET_OFFLINE='true')
 out = os.path.join(krun.VERIF, 'kani', 'timings.json')
 res = json.load(open(out)) if os.path.exists(out) else {}
-for h in hs:
+TO = int(os.environ.get('KTIME_TIMEOUT', '900'))
+# one build first (the others reuse it)
+subprocess.run(['cargo', 'kani', '-Z', 'stubbing', '--only-codegen'], cwd=work, env=env, stdout=subprocess.DEVNULL, stderr=subprocess.DEVNULL)
+
+def one(h):
     t0 = time.time()
+    p = subprocess.Popen(['cargo', 'kani', '-Z', 'stubbing', '--output-format', 'terse', '--harness', h], cwd=work, env=env,
+                         stdout=subprocess.PIPE, stderr=subprocess.STDOUT, text=True, start_new_session=True)
     try:
-        p = subprocess.run(['cargo', 'kani', '-Z', 'stubbing', '--output-format', 'terse', '--harness', h], cwd=work, env=env,
-                           stdout=subprocess.PIPE, stderr=subprocess.STDOUT, text=True, timeout=int(os.environ.get('KTIME_TIMEOUT', '900')))
-        ok = 'VERIFICATION:- SUCCESSFUL' in p.stdout
-        st = 'SUCCESS' if ok else ('FAILURE' if 'VERIFICATION:- FAILED' in p.stdout else 'ERROR')
+        o, _ = p.communicate(timeout=TO)
+        st = 'SUCCESS' if 'VERIFICATION:- SUCCESSFUL' in o else ('FAILURE' if 'VERIFICATION:- FAILED' in o else 'ERROR')
     except subprocess.TimeoutExpired:
         st = 'TIMEOUT'
-        subprocess.run(['pkill', 'cbmc'])
-    res[h] = dict(status=st, seconds=round(time.time() - t0, 1))
-    print(h, res[h], flush=True)
-    json.dump(res, open(out, 'w'), indent=1)
+        import signal
+        try:
+            os.killpg(p.pid, signal.SIGKILL)
+        except Exception:
+            pass
+        p.wait()
+    return h, dict(status=st, seconds=round(time.time() - t0, 1), parallel=jobs)
+
+with ThreadPoolExecutor(jobs) as ex:
+    for h, r in ex.map(one, hs):
+        res[h] = r
+        print(h, r, flush=True)
+        json.dump(res, open(out, 'w'), indent=1)
